@@ -253,6 +253,34 @@ func framedSubs(subs []submission, k int) []submission {
 	return out
 }
 
+// activeIdSubs: a history around an id held by an ACTIVE subscription, on the case's connection of
+// protocol proto: (setup) a subscription that stays active takes the id; a query / mutation started
+// with the same id is executed and answered like its HTTP twin (HandleStart only looks at the
+// subscription table for subscriptions); a SUBSCRIPTION started with the same id is dropped, silently,
+// in both protocols; (setup) the client stops the held subscription and gets its complete; the id is
+// reused once more.  Roles: "setup" is not judged, "held-sub" must be dropped.
+func activeIdSubs(t *table, o *opReq, proto string, id string) []submission {
+	start := func(role, label string, payload *J, hold, quiet bool) submission {
+		s := wsSub(t, proto, role, label, id, payload, styleCompact, "itp")
+		s.WS.Hold, s.WS.Quiet = hold, quiet
+		return s
+	}
+	stop := "stop"
+	if proto == "tws" {
+		stop = "complete"
+	}
+	release := submission{Transport: proto, Role: "setup", Label: "release-id",
+		WS: &wsEnv{Proto: proto, Type: stop, ID: id, Raw: frameText("it", stop, id, nil), Quiet: true}}
+	body := bodyObj(o, true)
+	return []submission{
+		start("setup", "hold-id", jobj(kv{"query", jstr("subscription { hold }")}), true, false),
+		start("alias", "id-held-by-subscription", body, false, false),
+		start("held-sub", "subscription-on-held-id", jobj(kv{"query", jstr("subscription { ticks(n: 1) }")}), false, true),
+		release,
+		start("alias", "reuse-id-after-release", body, false, false),
+	}
+}
+
 func withNulls(o *opReq) *J {
 	kvs := []kv{{"query", jstr(o.Query)}}
 	if o.Vars != nil {
@@ -721,6 +749,12 @@ func (w *world) run(cfg config, feat bool, o *opReq, t *table, subs []submission
 				// (an alias envelope may select another operation of the document than the case's: any
 				// started document that mentions a subscription is awaited by its own complete)
 				async := (o.Sub || strings.Contains(s.WS.Raw, "subscription")) && len(decs[k].List) > 0 && decs[k].List[0].Sym == "start"
+				if s.Label == "release-id" {
+					async = true // the stopped subscription answers with its complete
+				}
+				if s.Role == "held-sub" {
+					async = false // dropped: nothing will come
+				}
 				for _, v := range variants {
 					obs[k] = appendObs(obs[k], v.serveWS(*s.WS, feat, async, w.caseNo).sexp())
 				}
@@ -815,6 +849,9 @@ func main() {
 						subs := canonical(t, o, ids(idx))
 						subs = append(subs, reuseSubs(subs, idx%2)...)
 						subs = append(subs, framedSubs(subs, idx)...)
+						if !o.Sub && idx%4 == 1 {
+							subs = append(subs, activeIdSubs(t, o, []string{"gws", "tws"}[(idx/4)%2], fmt.Sprintf("h%d", idx))...)
+						}
 						return w.run(cfg, feat, o, t, subs)
 					})
 				}
@@ -940,6 +977,9 @@ func main() {
 				}
 				if r.Chance(1, 4) {
 					subs = append(subs, reuseSubs(subs[:len(canonical(&table{}, o, ids(0)))], r.Intn(2))...)
+				}
+				if !o.Sub && r.Chance(1, 10) {
+					subs = append(subs, activeIdSubs(t, o, rng.Pick(r, []string{"gws", "tws"}), fmt.Sprintf("h%d", idx))...)
 				}
 				if r.Chance(1, 40) {
 					subs = append(subs, preInitSub(t, o, rng.Pick(r, []string{"gws", "tws"}), id))
